@@ -59,8 +59,9 @@ CLAIMED["C05"] = (
     "Coq model of the whole recursive-descent parser + proofs (selector round trip by induction, validate() rules) + differential correspondence logql.Parse vs model + generator-computed expected trees; token/precedence tables regenerated from the Go source on every run",
     "The token-level parser model (Model/Parser.v: every parseX of parser*.go incl. validate()) is compared with logql.Parse on the exact tree for random grammar-derived queries in three layouts "
     "(incl. comments, both quoting styles), a list of statically invalid queries and single-token corruptions; what the text denotes is computed independently by the generator and checked on the "
-    "implementation's output. Proved: parse_print_selector_partial (round trip for selectors with any number of matchers), seven static-rule theorems about validate(). PARTIAL: parse(print c)=abs c for the "
-    "rest of the grammar and parse soundness are not theorems yet; the text/scanner lexer is not modelled (the model parser consumes Go's token list).",
+    "implementation's output. Proved: parse_print_selector_partial (round trip for selectors with any number of matchers, label names lexed as Ident or as keywords, D29), "
+    "parse_print_pipeline_partial (round trip for pipelines of any length over line filters incl. ip(), pattern, line_format, unpack, decolorize, drop / keep name lists, distinct), seven static-rule theorems about validate(). "
+    "PARTIAL: parse(print c)=abs c for the rest of the grammar (json / logfmt / regexp / label_format stages, label filters, metric expressions) and parse soundness are not theorems yet; the text/scanner lexer is not modelled (the model parser consumes Go's token list).",
     "Trusted: Coq kernel + vm_compute; tools/gentables.py (regex-level translator of token.go/op.go tables into Model/Tables.v); per-token library results (ParseFloat, Atoi, durations, bytes, regexp.Compile) recorded by the harness "
     "and passed to the model as oracle fields; generator's notion of the denoted tree (tools/qgen.py).",
     "DESIGN.md 4 C05")
@@ -95,8 +96,8 @@ CLAIMED["C08"] = (
     "Coq proof (fold invariant of groupEntries: key uniqueness, per-key content, count; insertion-sort lemmas; limit as a prefix by induction over the iteration) + differential correspondence with limits",
     "Theorems streams_nodup, stream_content (a stream holds exactly the entries of its label set, sorted, never empty), entry_placed, count_conserved, limit_prefix (positive limit = first min(L,N) entries of the unlimited answer, "
     "every capability set, every pipeline), nonpositive_limit_all, result_time_ordered (for a storage delivering in time order). The check evaluates each query with limits {-5,-1,0,1,2,N-1,N,N+1,100} incl. label values that "
-    "imitate the rendering of other labels (the grouping key is LabelSet.String) and verifies shape, prefix and equality with the model. PARTIAL: injectivity of the textual grouping key (strconv.Quote) is not a theorem; it is "
-    "exercised by the key-collision inputs.",
+    "imitate the rendering of other labels (the grouping key is LabelSet.String) and verifies shape, prefix and equality with the model. grouping_key_injective: the textual grouping key LabelSet.String() is injective on label sets (names without '='), GIVEN that strconv.Quote is a prefix code - "
+    "that one fact about strconv.Quote is a hypothesis of the theorem (Quote is not modelled: its escaping depends on unicode.IsPrint) and is exercised by the key-collision inputs.",
     ENG_NOTE, "DESIGN.md 4 C08")
 CLAIMED["C07"] = (
     "Coq proof (finite-map laws on sorted association lists; per-stage semantics lemmas) + differential correspondence with generator-computed expected line and full label set of every entry",
